@@ -180,39 +180,165 @@ def Sk.popLC (a : Sk) : Sk := { a with listCopy := a.listCopy.drop 1 }
 theorem wf_pushLC {a : Sk} (h : WfS a none) : WfS a.pushLC none := by
   refine ⟨h.q, ?_, h.t, h.c, h.s, h.k, h.tok⟩
   have hi := h.i
-  refine ⟨hi.qidLive, List.nodup_nil, fun _ hk => (by cases hk), fun l hl => ?_⟩
-  rcases List.mem_cons.mp hl with rfl | hl
-  · exact ⟨hi.allNodup, hi.allIdx⟩
-  · exact hi.lcOk l hl
+  refine ⟨hi.qidLive, List.nodup_nil, fun _ hk => (by cases hk), fun l hl => ?_, ?_, ?_⟩
+  · rcases List.mem_cons.mp hl with rfl | hl
+    · exact ⟨hi.allNodup, hi.allIdx⟩
+    · exact hi.lcOk l hl
+  · show ([] ++ (a.all :: a.listCopy).flatten).Nodup
+    simpa using hi.disj
+  · intro k hk
+    rcases hi.nl k hk with h' | ⟨l, hl, hkl⟩
+    · exact Or.inr ⟨a.all, List.mem_cons_self, h'⟩
+    · exact Or.inr ⟨l, List.mem_cons_of_mem _ hl, hkl⟩
 
-theorem wf_popLC {a : Sk} (h : WfS a none) : WfS a.popLC none := by
+/-- the list on top of the stack has been walked to the end, so it can be dropped -/
+theorem wf_popLC {a : Sk} (h : WfS a none) (hh : (a.listCopy.head?).bind (·.head?) = none) : WfS a.popLC none := by
   refine ⟨h.q, ?_, h.t, h.c, h.s, h.k, h.tok⟩
   have hi := h.i
-  exact ⟨hi.qidLive, hi.allNodup, hi.allIdx, fun l hl => hi.lcOk l (List.mem_of_mem_drop hl)⟩
+  refine ⟨hi.qidLive, hi.allNodup, hi.allIdx, fun l hl => hi.lcOk l (List.mem_of_mem_drop hl), ?_, ?_⟩
+  · show (a.all ++ (a.listCopy.drop 1).flatten).Nodup
+    refine (List.Sublist.append (List.Sublist.refl _) ?_).nodup hi.disj
+    cases a.listCopy with
+    | nil => exact List.Sublist.refl _
+    | cons x r => simp
+  · intro k hk
+    rcases hi.nl k hk with h' | ⟨l, hl, hkl⟩
+    · exact Or.inl h'
+    · right
+      show ∃ l ∈ a.listCopy.drop 1, k ∈ l
+      cases hlc : a.listCopy with
+      | nil => rw [hlc] at hl; cases hl
+      | cons x r =>
+        rw [hlc] at hl hh
+        rcases List.mem_cons.mp hl with rfl | hl
+        · simp only [List.head?_cons, Option.bind_some] at hh
+          cases l with
+          | nil => cases hkl
+          | cons y t => simp at hh
+        · exact ⟨l, by simpa using hl, hkl⟩
 
-theorem mid_of_same {d s s'} (hd : DebtOk none d s.sk) (hw' : Wf s') (hf : s'.sk.faults = s.sk.faults)
-    (hk : s'.sk.nextClient = s.sk.nextClient) (hnk : s'.sk.nextKey = s.sk.nextKey) (hq : s'.sk.qKO = s.sk.qKO)
-    (hi : s'.sk.idx = s.sk.idx) (hc : s'.sk.clients = s.sk.clients) (hp : s'.sk.pendingToks = s.sk.pendingToks)
-    (hu : s'.sk.cFUQ = s.sk.cFUQ) : Mid d s s' :=
-  ⟨hw', hd.congr hk hq hi hc hp, StepS.of_same hf hk hnk hq hi hc hp
-    (fun fd q hm _ => ⟨q, by rw [hu]; exact hm, fun _ hx => hx⟩)⟩
+/-- the walk of `ares_cancel`, seen from outside the list swap -/
+theorem StepS.sandwich_cancel {xf xi d} {a b : Sk} (h : StepS xf xi d a.pushLC b) : StepS xf xi d a b.popLC where
+  faults := h.faults
+  kMono := h.kMono
+  keyMono := h.keyMono
+  idxNew := h.idxNew
+  unl := h.unl
+  orphan := h.orphan
+  debtAlive := h.debtAlive
+  prog := {
+    doneMono := h.prog.doneMono
+    lcRel := by
+      have := h.prog.lcRel
+      show LcSub (b.listCopy.drop 1) a.listCopy
+      cases hb : b.listCopy with
+      | nil => rw [hb] at this; cases this
+      | cons x r =>
+        rw [hb] at this
+        cases this with
+        | cons _ ht => exact ht
+    allNew := fun k hk => by
+      rcases h.prog.allNew k hk with h' | h'
+      · cases h'
+      · exact Or.inr h'
+    keysLt := h.prog.keysLt
+    ownKeep := h.prog.ownKeep
+    done6 := h.prog.done6 }
+
+theorem LcSub.mem {a b : List (List Nat)} (h : LcSub a b) {l : List Nat} (hl : l ∈ a) :
+    ∃ l0 ∈ b, ∀ k ∈ l, k ∈ l0 := by
+  induction h with
+  | nil => cases hl
+  | cons hx _ ih =>
+    rcases List.mem_cons.mp hl with rfl | hl
+    · exact ⟨_, List.mem_cons_self, hx⟩
+    · obtain ⟨l0, h0, hs⟩ := ih hl
+      exact ⟨l0, List.mem_cons_of_mem _ h0, hs⟩
+
+theorem WfS.keysLt {a : Sk} {hole} (h : WfS a hole) : ∀ p ∈ a.qKO, p.1 < a.nextKey := by
+  intro p hp
+  obtain ⟨e, he, rfl⟩ := List.mem_map.mp hp
+  exact h.q.lt e.key (List.mem_map.mpr ⟨e, he, rfl⟩)
+
+/-- the walk over the swapped list: every request of the application that was in `all_queries` has had its
+    callback when the walk returns -/
+theorem cancel_walk_done {d} {s : St} {r : St × Ret} (hw : Wf s)
+    (hg : Good d (.cancelLoop .cancelled false) { s with listCopy := s.all :: s.listCopy, all := [] } r) :
+    ∀ k ∈ s.all, ∀ tok, (k, Owner.user tok) ∈ s.sk.qKO → tok ∈ r.1.doneToks := by
+  have hw1 : Wf ({ s with listCopy := s.all :: s.listCopy, all := [] } : St) :=
+    (show WfS s.sk.pushLC none from wf_pushLC hw)
+  obtain ⟨s2, ret⟩ := r
+  intro k hk tok hko
+  have hki : k ∈ s.sk.idx := hw.i.allIdx k hk
+  have hklt : k < s.sk.nextKey := key_lt_of_idx hw hki
+  have hp := hg.step.prog
+  -- `k` is no longer linked
+  have hnot : k ∉ s2.sk.idx := by
+    intro hin
+    rcases hg.wf.i.nl k hin with ha | ⟨l, hl, hkl⟩
+    · rcases hp.allNew k ha with h' | h'
+      · cases h'
+      · exact absurd h' (by show ¬ s.sk.nextKey ≤ k; omega)
+    · have hrel : LcSub s2.listCopy (s.all :: s.listCopy) := hp.lcRel
+      have hpost : (s2.listCopy.head?).bind (·.head?) = none := hg.post
+      change l ∈ s2.listCopy at hl
+      cases hlc : s2.listCopy with
+      | nil => rw [hlc] at hl; cases hl
+      | cons h2 t2 =>
+        rw [hlc] at hrel hl hpost
+        cases hrel with
+        | cons hx ht =>
+          rcases List.mem_cons.mp hl with rfl | hl
+          · simp only [List.head?_cons, Option.bind_some] at hpost
+            cases l with
+            | nil => cases hkl
+            | cons y t => simp at hpost
+          · obtain ⟨l0, h0, hs⟩ := ht.mem hl
+            have hd' := hw.i.disj
+            rw [List.nodup_append] at hd'
+            exact hd'.2.2 k hk k (List.mem_flatten.mpr ⟨l0, h0, hs k hkl⟩) rfl
+  rcases hp.done6 hw1.keysLt (k, .user tok) hko hki hnot tok rfl with h' | h'
+  · exact h'
+  · cases h'
 
 theorem good_cancel {go} (hgo : GoOk go) {d s} (hpre : Pre d s .cancel) :
     GoodO d .cancel s (bodyCancel go s) := by
   obtain ⟨hw, hd⟩ := hpre
   unfold bodyCancel
-  have hmid : MidO d s (if s.all.isEmpty then s else
+  -- the state after the walk, with the completion of everything that was in `all_queries`
+  have hmid : (if s.all.isEmpty then s else
       let s := { s with listCopy := s.all :: s.listCopy, all := [] }
       let (s, _) := go (.cancelLoop .cancelled false) s
-      { s with listCopy := s.listCopy.drop 1 }) := by
+      { s with listCopy := s.listCopy.drop 1 }).outOfFuel = true ∨
+    (Mid d s (if s.all.isEmpty then s else
+      let s := { s with listCopy := s.all :: s.listCopy, all := [] }
+      let (s, _) := go (.cancelLoop .cancelled false) s
+      { s with listCopy := s.listCopy.drop 1 }) ∧
+     ∀ k ∈ s.all, ∀ tok, (k, Owner.user tok) ∈ s.sk.qKO →
+      tok ∈ (if s.all.isEmpty then s else
+        let s := { s with listCopy := s.all :: s.listCopy, all := [] }
+        let (s, _) := go (.cancelLoop .cancelled false) s
+        { s with listCopy := s.listCopy.drop 1 }).doneToks) := by
     split
-    · exact Or.inr (Mid.refl hw hd)
+    · rename_i hemp
+      refine Or.inr ⟨Mid.refl hw hd, fun k hk => ?_⟩
+      have : s.all = [] := List.isEmpty_iff.mp hemp
+      rw [this] at hk; cases hk
     · simp only
-      have hm1 : Mid d s { s with listCopy := s.all :: s.listCopy, all := [] } :=
-        mid_of_same hd (show WfS s.sk.pushLC none from wf_pushLC hw) rfl rfl rfl rfl rfl rfl rfl rfl
-      have hm2 := hm1.call hgo (.cancelLoop .cancelled false) ⟨hm1.wf, hm1.debt⟩ rfl rfl
-      refine hm2.bind (fun h => h) (fun hm2 => Or.inr (hm2.trans ?_))
-      exact mid_of_same hm2.debt (show WfS (Sk.popLC _) none from wf_popLC hm2.wf) rfl rfl rfl rfl rfl rfl rfl rfl
-  exact hmid.tail hgo (fun hm => ⟨hm.wf, hm.debt⟩) (Or.inl rfl) (Or.inl rfl) (fun _ => trivial)
+      have hw1 : Wf ({ s with listCopy := s.all :: s.listCopy, all := [] } : St) :=
+        (show WfS s.sk.pushLC none from wf_pushLC hw)
+      have hd1 : DebtOk none d ({ s with listCopy := s.all :: s.listCopy, all := [] } : St).sk :=
+        hd.congr rfl rfl rfl rfl rfl
+      rcases hgo.2 d (.cancelLoop .cancelled false) _ ⟨hw1, hd1⟩ with hoof | hg
+      · exact Or.inl hoof
+      · refine Or.inr ⟨⟨show WfS (Sk.popLC _) none from wf_popLC hg.wf hg.post, hg.debt.congr rfl rfl rfl rfl rfl,
+          StepS.sandwich_cancel (a := s.sk) hg.step⟩, ?_⟩
+        exact cancel_walk_done hw hg
+  rcases hmid with hoof | ⟨hm, hdone⟩
+  · exact Or.inl (hgo.1 _ _ hoof)
+  · rcases hgo.2 d (.cleanupConns _) _ (show Pre d _ (.cleanupConns _) from ⟨hm.wf, hm.debt⟩) with hoof | hg
+    · exact Or.inl hoof
+    · exact Or.inr ⟨hg.wf, hg.debt, hm.step.trans hg.step,
+        fun k hk tok hko => hg.step.prog.doneMono tok (hdone k hk tok hko)⟩
 
 end Cares.Chan
